@@ -1201,3 +1201,104 @@ def default_channel_rule(ctx: Ctx, functions, rule: str = "DEFCHAN") -> int:
                       message=f"{why}: the local stays None (created messages fall back to channel 0) or follows a later message", file=fi.file,
                       node=takes[0] if takes else fi.node)
     return n
+
+
+def message_type_order(p) -> tuple[dict | None, str]:
+    """member name -> sort position as `MessageType.__lt__` computes it, for the idioms: positions in the declaration
+    (`[e for e in MessageType].index(x)` / `list(MessageType).index(x)`), or a module-level table (list -> index of first occurrence,
+    dict / dict comprehension over enumerate(list) -> last position written).  (None, why) when the comparison is something else."""
+    lt = p.functions.get("MessageType.__lt__")
+    if lt is None:
+        return None, "MessageType.__lt__ not found"
+    rets = [r for r in walk_local(lt.node) if isinstance(r, ast.Return) and r.value is not None]
+    if len(rets) != 1 or not (isinstance(rets[0].value, ast.Compare) and len(rets[0].value.ops) == 1 and isinstance(rets[0].value.ops[0], ast.Lt)):
+        return None, "not a single `return <position of self> < <position of other>`"
+    l, r = rets[0].value.left, rets[0].value.comparators[0]
+    me, other = lt.params[0], lt.params[1]
+    members = p.enum_order("MessageType")
+
+    def pos_expr(e, who):
+        """-> ('decl', None) | ('table', name) | None"""
+        if isinstance(e, ast.Call) and isinstance(e.func, ast.Attribute) and e.func.attr == "index" and len(e.args) == 1 and isinstance(e.args[0], ast.Name) \
+                and e.args[0].id == who:
+            base = e.func.value
+            if isinstance(base, ast.Name):
+                defs = [a for a in walk_local(lt.node) if isinstance(a, ast.Assign) and isinstance(a.targets[0], ast.Name) and a.targets[0].id == base.id]
+                if len(defs) == 1:
+                    base = defs[0].value
+                else:
+                    return ("table", base.id)
+            t = src(base).replace(" ", "")
+            if t in ("[eforeinMessageType]", "list(MessageType)", "[*MessageType]"):
+                return ("decl", None)
+            return None
+        if isinstance(e, ast.Subscript) and isinstance(e.value, ast.Name) and isinstance(e.slice, ast.Name) and e.slice.id == who:
+            return ("table", e.value.id)
+        return None
+    a, b = pos_expr(l, me), pos_expr(r, other)
+    if a is None or b is None or a != b:
+        return None, f"`{short(rets[0].value, 70)}`: positions are not read the same way for both operands"
+    if a[0] == "decl":
+        return {m: i for i, m in enumerate(members)}, "declaration order"
+    # module-level table
+    mod = p.modules[lt.file].tree
+    tdef = next((st for st in mod.body if isinstance(st, ast.Assign) and isinstance(st.targets[0], ast.Name) and st.targets[0].id == a[1]), None)
+    if tdef is None:
+        return None, f"table `{a[1]}` not found at module level"
+    v = tdef.value
+
+    def member(e):
+        ch = attr_chain(e)
+        return ch[1] if ch and len(ch) == 2 and ch[0] == "MessageType" else None
+    if isinstance(v, (ast.List, ast.Tuple)):
+        names = [member(e) for e in v.elts]
+        if None in names:
+            return None, "table holds something other than members"
+        pos = {}
+        for i, nme in enumerate(names):
+            pos.setdefault(nme, i)           # list.index: first occurrence
+        return pos, f"table `{a[1]}`"
+    if isinstance(v, ast.Dict):
+        pos = {}
+        for k, val in zip(v.keys, v.values):
+            if member(k) is None or not isinstance(val, ast.Constant):
+                return None, "dict table with non-literal entries"
+            pos[member(k)] = val.value
+        return pos, f"table `{a[1]}`"
+    if isinstance(v, ast.DictComp) and len(v.generators) == 1 and isinstance(v.generators[0].iter, ast.Call) and src(v.generators[0].iter.func) == "enumerate" \
+            and isinstance(v.generators[0].iter.args[0], (ast.List, ast.Tuple)) and isinstance(v.generators[0].target, ast.Tuple):
+        idx_name, mem_name = [x.id for x in v.generators[0].target.elts]
+        names = [member(e) for e in v.generators[0].iter.args[0].elts]
+        if None in names or src(v.key) != mem_name or src(v.value) != idx_name:
+            return None, "dict comprehension of another shape"
+        pos = {}
+        for i, nme in enumerate(names):
+            pos[nme] = i                     # later entries overwrite
+        return pos, f"table `{a[1]}`"
+    return None, f"table `{a[1]}` of an unrecognised shape"
+
+
+def message_type_order_rule(ctx: Ctx, rule: str = "ORDER") -> None:
+    """The tie-breaker of the canonical sort is a strict total order on *all* message kinds in which a note-off precedes a note-on:
+    a kind the comparison does not know makes every sort that meets it raise (the absolute view can no longer be built), two kinds on
+    one position make the order of simultaneous events depend on insertion history."""
+    p = ctx.p
+    lt = p.functions.get("MessageType.__lt__")
+    if lt is not None:
+        ctx.analysed(lt)
+    pos, how = message_type_order(p)
+    members = p.enum_order("MessageType")
+    if pos is None:
+        ctx.undetermined(rule, "MessageType.__lt__: strict total order on all kinds", f"{how}: idiom not recognised, not judged")
+        return
+    missing = [m for m in members if m not in pos]
+    ctx.check(not missing, rule, f"MessageType.__lt__ ({how}) knows every message kind", function=lt.qualname,
+              construct="the ordering of message kinds does not cover every kind",
+              message=f"{missing} have no position: a sort that compares such a message raises, so the absolute view of a sequence holding one cannot be built",
+              file=lt.file, node=lt.node)
+    vals = [pos[m] for m in members if m in pos]
+    ctx.check(len(set(vals)) == len(vals), rule, "no two message kinds share a sort position", function=lt.qualname,
+              construct="two message kinds share one sort position", message=f"{sorted((v, m) for m, v in pos.items())}", file=lt.file, node=lt.node)
+    ctx.check("NOTE_OFF" in pos and "NOTE_ON" in pos and pos["NOTE_OFF"] < pos["NOTE_ON"], rule, "a note-off sorts before a note-on of the same tick and channel",
+              function=lt.qualname, construct="NOTE_ON ordered before NOTE_OFF",
+              message="abutting notes of one pitch would re-open before closing and be fused / dropped", file=lt.file, node=lt.node)
